@@ -30,7 +30,29 @@ def run(res, tier, seed):
     rng = random.Random(seed)
     proof_ok = proof_stage(res, "Rva.Proofs.C14", THEOREMS, extra_modules=["Rva.Proofs.Tables"])
     n = 60 if tier == "quick" else 800
-    base = [c for c in CORPUS if "t0,B" not in c]
+    # every role a saved register / a temporary can play, written with s1 / t1 and renamed into every
+    # other member of the class (all transpositions are applied to these programs below): pointer
+    # base of word, half and byte stores and loads at the small offsets frame slots have, frame
+    # pointer copy, loop counter across calls, branch operand, jump-and-link / indirect-jump operand
+    ROLES = [
+        "main:\n    la a0, buf\n    jal fill\n    li a7, 10\n    ecall\nfill:\n    addi sp, sp, -8\n    sw ra, 0(sp)\n"
+        "    sw s1, 4(sp)\n    mv s1, a0\n    li t1, 7\n    sw t1, 0(s1)\n    sw t1, 4(s1)\n    sh t1, 8(s1)\n"
+        "    sb t1, 12(s1)\n    lw t2, 4(s1)\n    add a0, t2, t1\n    lw s1, 4(sp)\n    lw ra, 0(sp)\n    addi sp, sp, 8\n"
+        "    ret\n.data\nbuf: .space 16\n",
+        "main:\n    li a0, 3\n    jal work\n    li a7, 10\n    ecall\nwork:\n    addi sp, sp, -16\n    sw ra, 12(sp)\n"
+        "    sw s1, 8(sp)\n    addi s1, sp, 16\n    sw a0, -12(s1)\n    lw t1, -12(s1)\n    addi a0, t1, 1\n"
+        "    lw s1, 8(sp)\n    lw ra, 12(sp)\n    addi sp, sp, 16\n    ret\n",
+        "main:\n    li a0, 3\n    jal count\n    li a7, 10\n    ecall\ncount:\n    addi sp, sp, -8\n    sw ra, 0(sp)\n"
+        "    sw s1, 4(sp)\n    mv s1, a0\nagain:\n    mv a0, s1\n    jal leaf\n    addi s1, s1, -1\n    bnez s1, again\n"
+        "    lw s1, 4(sp)\n    lw ra, 0(sp)\n    addi sp, sp, 8\n    ret\nleaf:\n    addi a0, a0, 1\n    ret\n",
+        "main:\n    li t1, 5\n    la t2, buf\n    sw t1, 0(t2)\n    lw t3, 0(t2)\n    jal leaf\n    add a0, a0, t1\n"
+        "    li a7, 10\n    ecall\nleaf:\n    li t1, 1\n    add a0, a0, t1\n    ret\n.data\nbuf: .word 0\n",
+        "main:\n    la t1, leaf\n    jalr ra, 0(t1)\n    jal t1, side\n    li a7, 10\n    ecall\nside:\n    addi a0, a0, 1\n"
+        "    jr t1\nleaf:\n    addi a0, a0, 2\n    ret\n",
+        "main:\n    li s1, 4\n    li t1, 2\n    blt t1, s1, over\n    addi t1, t1, 1\nover:\n    mv a0, t1\n    li a7, 1\n"
+        "    ecall\n    li a7, 10\n    ecall\n",
+    ]
+    base = ROLES + [c for c in CORPUS if "t0,B" not in c]
     for _ in range(n):
         s, _ = prog.program(rng, sloppy=rng.choice([0, 0.15, 0.3]), multi_ret=False)
         base.append(s)
@@ -40,7 +62,7 @@ def run(res, tier, seed):
     for k, s in enumerate(base):
         perms = [rename.perm(rng) for _ in range(2)]
         perms += [rename.perm(rng, t) for t in rng.sample(trans, 3 if tier == "quick" else 10)]
-        if k < 3:
+        if k < len(ROLES) + 2:
             perms += [rename.perm(rng, t) for t in trans]
         for pm in perms:
             lm = rename.fresh_labels(rng, rename.labels_of(s)) if rng.random() < 0.6 else {}
